@@ -492,6 +492,22 @@ def run_check(prop, tier, seed, n_override=None):
             if k["id"] not in reported:
                 reported.add(k["id"])
                 print("KNOWN-FINDING: property=%s %s (%s)" % (prop, k["what"], k["id"]))
+        # a divergence is reported only if the history diverges again when it is run alone (an operation
+        # that merely ran into the harness watchdog on a loaded machine does not reproduce)
+        confirmed = []
+        for h, d in violations:
+            if len(confirmed) >= 3:
+                break
+            hmode = mode_of.get(h["id"], mode)
+            if (d.get("impl") or "") in ("hang", "runaway", None) or d["kind"] in ("no-output",):
+                r = C.run_one(h["lines"], work, mode=hmode, tag="confirm")
+                d2 = C.first_divergence(r, oracle)
+                if d2 is None or match_known(prop, h["lines"], d2):
+                    C.log("not reproduced when run alone (timing):", h["id"], d["line"])
+                    continue
+                d = d2
+            confirmed.append((h, d))
+        violations = confirmed
         nviol = 0
         for h, d in violations[:3]:
             hmode = mode_of.get(h["id"], mode)
